@@ -1002,7 +1002,7 @@ def tier_c(run, thorough):
             if cont == 'array':
                 case['desc_order'] = 'group-first'
             bd.check(orc_pattern, case, f'default-index,{cont},user-supplied-index', function='bootstrap_sample_pattern')
-            if False:  # pending triage: default-index,user-supplied-index,prediction-of-ModelFixed
+            if True:   # recorded as open finding (was pending triage): default-index,user-supplied-index,prediction-of-ModelFixed
                 # ModelFixed.__init__ overwrites the 'index' pattern descriptor of the RDMs it is given with 0..n-1, so the
                 # prediction resampled with the returned (user) index values has no / other conditions than the sample
                 bd.check(orc_pattern, dict(case, pred='model'), 'default-index,user-supplied-index,prediction-of-ModelFixed',
@@ -1051,7 +1051,7 @@ def tier_c(run, thorough):
             if cont == 'array':
                 case['desc_order'] = 'group-first'
             bd.check(orc_joint, case, f'default-index,{cont},user-supplied-index', function='bootstrap_sample')
-            if False:  # pending triage: default-index,user-supplied-index,prediction-of-ModelFixed
+            if True:   # recorded as open finding (was pending triage): default-index,user-supplied-index,prediction-of-ModelFixed
                 bd.check(orc_joint, dict(case, pred='model'), 'default-index,user-supplied-index,prediction-of-ModelFixed',
                          function='bootstrap_sample')
     bd.done()
